@@ -279,7 +279,8 @@ def SLASH : Nat := 47
 
 /-- signature files, dropped from either side -/
 def isSig (n : JStr) : Bool :=
-  (jstr "META-INF/").isPrefixOf n && ((jstr ".SF").isSuffixOf n || (jstr ".RSA").isSuffixOf n)
+  (jstr "META-INF/").isPrefixOf n &&
+    ((jstr ".SF").isSuffixOf n || (jstr ".RSA").isSuffixOf n || (jstr ".DSA").isSuffixOf n || (jstr ".EC").isSuffixOf n)
 
 /-- "the libraries the server bundles": decided on the entry name only -/
 def isBundled (n : JStr) : Bool :=
